@@ -473,3 +473,82 @@ def check_snprintf_lengths(db, funcs, rep, rule):
                           "%s uses the return value of %s (`%s`) as %s without bounding it by the buffer size %s: for output longer than the buffer the "
                           "value exceeds what was written and the access runs past the buffer" % (f.name, c.name, var, sink, unparse(size)), line=u.line)
     return n
+
+
+def _lower_terms(e, sd=None):
+    """set of expressions (unparsed) that e is known to be >= of, for sums and MAX-style conditionals: used for
+    `new_size >= old_size + needed`.  Returns list of linear forms {text: coef} + const that are lower bounds of e."""
+    e = strip_casts(e)
+    if e is None:
+        return []
+    if e.k == "ConditionalOperator":
+        # (a > b ? a : b)  >= a  and  >= b   (MAX);   any conditional >= min of both: only the MAX shape is used
+        c = strip_casts(e.c[0])
+        a, b = strip_casts(e.c[1]), strip_casts(e.c[2])
+        if c is not None and c.k == "BinaryOperator" and c.op in ("<", "<=", ">", ">="):
+            ta, tb = unparse(a), unparse(b)
+            l, r = unparse(strip_casts(c.c[0])), unparse(strip_casts(c.c[1]))
+            ismax = ({ta, tb} == {l, r}) and ((c.op in (">", ">=") and ta == l) or (c.op in ("<", "<=") and ta == r))
+            if ismax:
+                return _lower_terms(a, sd) + _lower_terms(b, sd)
+        return []
+    if e.k == "BinaryOperator" and e.op == "+":
+        out = []
+        for x in _lower_terms(e.c[0], sd):
+            for y in _lower_terms(e.c[1], sd):
+                t = dict(x[0])
+                for k, v in y[0].items():
+                    t[k] = t.get(k, 0) + v
+                out.append((t, x[1] + y[1]))
+        return out
+    if e.k == "BinaryOperator" and e.op == "*" and strip_casts(e.c[0]) is not None and strip_casts(e.c[0]).v is not None and strip_casts(e.c[0]).v >= 1:
+        return [({k: v * strip_casts(e.c[0]).v for k, v in t.items()}, c * strip_casts(e.c[0]).v) for t, c in _lower_terms(e.c[1], sd)]
+    if e.k == "BinaryOperator" and e.op == "*" and strip_casts(e.c[1]) is not None and strip_casts(e.c[1]).v is not None and strip_casts(e.c[1]).v >= 1:
+        return [({k: v * strip_casts(e.c[1]).v for k, v in t.items()}, c * strip_casts(e.c[1]).v) for t, c in _lower_terms(e.c[0], sd)]
+    if e.v is not None:
+        return [({}, e.v)]
+    return [({unparse(e): 1}, 0)]
+
+
+def check_guarded_growth(db, funcs, rep, rule):
+    """`if (used + need >= size) { size = E; buf = realloc (buf, size); }` followed by writing `need` bytes at buf + used:
+    the new size must be at least old size + need (or used + need + 1).  A growth policy that does not add the amount about
+    to be written (e.g. pure doubling) overflows the buffer for one long item."""
+    n = 0
+    for f in funcs:
+        for iff in f.walk():
+            if iff.k != "IfStmt" or iff.c[0] is None or iff.c[1] is None:
+                continue
+            c = strip_casts(iff.c[0])
+            if c is None or c.k != "BinaryOperator" or c.op not in (">=", ">", "<", "<="):
+                continue
+            # orientation: (used + need) >= size   or  size <= used + need
+            a, b = strip_casts(c.c[0]), strip_casts(c.c[1])
+            if c.op in ("<", "<="):
+                a, b = b, a
+            if a is None or b is None or a.k != "BinaryOperator" or a.op != "+" or access_path(b) is None:
+                continue
+            S = access_path(b)
+            used, need = unparse(strip_casts(a.c[0])), unparse(strip_casts(a.c[1]))
+            body = iff.c[1]
+            grows = [x for x in body.walk() if x.k in ("BinaryOperator", "CompoundAssignOperator") and x.op in ("=", "+=") and access_path(x.c[0]) == S]
+            reallocs = [x for x in body.walk() if x.k == "CallExpr" and x.name in ("orc_realloc", "realloc") and S in paths_in(x)]
+            if len(grows) != 1 or not reallocs:
+                continue
+            g = grows[0]
+            lows = _lower_terms(g.c[1])
+            if g.op == "+=":
+                lows = [(dict(t, **{S: t.get(S, 0) + 1}), k) for t, k in lows]
+            n += 1
+            ok = False
+            for t, k in lows:
+                # >= size + need     or   >= used + need + 1
+                if t.get(S, 0) >= 1 and (t.get(need, 0) >= 1):
+                    ok = True
+                if t.get(used, 0) >= 1 and t.get(need, 0) >= 1 and k >= 1:
+                    ok = True
+            rep.check(ok, rule, where(f), "grow:%s" % S,
+                      "buffer grows by at least the %s about to be written" % need,
+                      "%s enlarges `%s` to `%s` when %s + %s no longer fits, but that is not known to be >= %s + %s: one item longer than the "
+                      "added room is written past the end of the buffer" % (f.name, S, unparse(g.c[1]) if g.op == "=" else "%s + %s" % (S, unparse(g.c[1])), used, need, S, need), line=g.line)
+    return n
